@@ -1,16 +1,13 @@
-(* C15 — property theorems only (each closed by [exact] of a lemma). *)
+(* C15 — property theorems only.  Each is closed by [exact] of a lemma from
+   Proofs*.v and followed by Print Assumptions. *)
 From Coq Require Import List Arith ZArith Bool.
-From Verif Require Import lib.Wire c15.Lts c15.Model c15.Spec.
+From Verif Require Import lib.Wire c15.Lts c15.Model c15.Spec c15.Proofs.
 Import ListNotations.
 
-(* an accepted label trace is the visible trace of the LTS under some schedule *)
-Theorem c15_trace_accepted_sound : forall fuel st tr,
+(* what conform_case establishes for a recorded run: the label trace of the
+   implementation is the visible trace of the LTS under some schedule, so every
+   theorem below about all schedules applies to it *)
+Theorem c15_accepted_trace_is_model_trace : forall fuel st tr,
   accepted fuel st tr = true -> exists sched, trace step st sched = tr.
-Proof.
-  intros fuel st tr H. eapply trace_accepted_sound; [|exact H].
-  intros a b E. destruct a, b; cbn in E; try discriminate;
-    repeat match goal with
-    | H : _ && _ = true |- _ => apply andb_true_iff in H; destruct H
-    end.
-  all: admit.
-Abort.
+Proof. exact accepted_sound. Qed.
+Print Assumptions c15_accepted_trace_is_model_trace.
